@@ -5134,7 +5134,8 @@ EmitOp_MemBaseNoImm_Rn5:
   goto EmitOp;
 
 EmitOp_MemBaseIndex_Rn5_Rm16:
-  if (!check_mem_base(rm_rel->as<Mem>())) {
+  // There is no pre-index or post-index form of a register offset.
+  if (!check_mem_base(rm_rel->as<Mem>()) || rm_rel->as<Mem>().is_pre_or_post()) {
     goto InvalidAddress;
   }
 
